@@ -564,4 +564,17 @@ def text_law(law, inp):
     raise KeyError(law)
 
 
-PROP = C08()
+from srccall import with_src  # noqa: E402
+
+# translated source: the requirement grammar's recursive-descent functions (_parser.py, over the shared Tokenizer) are proved
+# to agree with the model's parser (Req.versionMany / parseSpecifier / parseExtras… / parseRequirement / parseSource)
+_REQ_FUNCS = ["_parse_version_many", "_parse_specifier", "_parse_extras_list", "_parse_extras", "_parse_requirement_marker",
+              "_parse_requirement_details", "_parse_requirement", "parse_requirement"]
+PROP = with_src(C08(), share=10, functions=_REQ_FUNCS,
+                module=["PkgProofs.Props.Src.ReqParse", "PkgProofs.Props.Src.ReqFuel", "PkgProofs.Props.Src.ReqParseMain"],
+                theorems=["Src." + f + "_translated" for f in _REQ_FUNCS] + [
+                    "Src._parse_version_many_agrees", "Src._parse_specifier_agrees", "Src._parse_extras_list_agrees",
+                    "Src._parse_extras_agrees", "Src._parse_requirement_marker_agrees", "Src._parse_requirement_details_agrees",
+                    "Src._parse_requirement_eq_model", "Src.parse_requirement_eq_model", "Src.markerParserAgrees",
+                    "Src._parse_requirement_marker_agrees'", "Src.parse_requirement_eq_model'", "Src._parse_marker_agrees",
+                    "Src.parseSource_ne_fuel", "Src.parse_requirement_eq_parseSource"])
